@@ -124,7 +124,12 @@ class Simulator:
                 jac_fn = lambda t, x: _jac_fn(  # noqa: E731
                     t,
                     x,
-                    self.model._parameters.values(),  # noqa: SLF001
+                    [
+                        self.model._create_cache().all_parameter_values[k]  # noqa: SLF001
+                        if self.model._cache is None  # noqa: SLF001
+                        else self.model._cache.all_parameter_values[k]  # noqa: SLF001
+                        for k in self.model.get_parameter_names()
+                    ],
                 )
 
             except Exception as e:  # noqa: BLE001
